@@ -251,9 +251,62 @@ class Extractor:
         if k == "closure":
             inner = self._items(e["body"], fn, names, depth, stack)
             return [("loop", inner)] if inner else []
+        if k == "block":
+            # a statement one arm of which leaves the function *normally* (`_ => return Ok(())`, `else { return; }`)
+            # makes everything after it conditional on the other arms: the same transcript as an `if` around the rest
+            parts = list(e.get("stmts", [])) + ([e["e"]] if "e" in e else [])
+            for idx, st in enumerate(parts):
+                cond = self._normal_exit_guard(st, fn)
+                out.extend(self._items(st, fn, names, depth, stack))
+                if cond is not None and idx + 1 < len(parts):
+                    rest = self._items({"k": "block", "stmts": parts[idx + 1:]}, fn, names, depth, stack)
+                    if rest:
+                        out.append(("branch", cond, tuple(rest)))
+                    return out
+            return out
         for c in children(e):
             out.extend(self._items(c, fn, names, depth, stack))
         return out
+
+    def _normal_exit_guard(self, st, fn):
+        """the guard of the `if` / `match` in this statement when one of its arms returns normally (unit / `Ok(())`)
+        and another falls through; None otherwise. Refusals (`?`, `return Err(..)`) and verdicts are not normal exits."""
+        x = st
+        if isinstance(x, dict) and x.get("k") in ("stmt", "let"):
+            x = x.get("e") if x.get("k") == "stmt" else x.get("init")
+        while isinstance(x, dict) and x.get("k") in ("block",) and not x.get("stmts") and "e" in x:
+            x = x["e"]
+        if not isinstance(x, dict) or x.get("k") not in ("if", "match") or x.get("src") in ("try", "for", "await", "fmt"):
+            return None
+
+        def exits(a):
+            # the arm is (a block ending in) `return;` / `return Ok(())` / `return ()`
+            while isinstance(a, dict) and a.get("k") == "block":
+                ps = list(a.get("stmts", [])) + ([a["e"]] if "e" in a else [])
+                if len(ps) != 1:
+                    return False
+                a = ps[0].get("e") if ps[0].get("k") == "stmt" else ps[0]
+            if isinstance(a, dict) and a.get("k") == "continue":
+                return True     # leaves the iteration: the rest of the loop body is conditional in the same way
+            if not isinstance(a, dict) or a.get("k") != "ret":
+                return False
+            args = a.get("args") or []
+            if not args:
+                return True
+            v = args[0]
+            if v.get("k") == "tup" and not v.get("args"):
+                return True
+            if v.get("k") == "call" and (v.get("def") or (v.get("f") or {}).get("def") or "").endswith("Ok"):
+                inner = (v.get("args") or [None])[0]
+                return isinstance(inner, dict) and inner.get("k") == "tup" and not inner.get("args")
+            return False
+        arms = [x["then"]] + ([x["else"]] if "else" in x else []) if x["k"] == "if" else [a["body"] for a in x["arms"]]
+        ex = [exits(a) for a in arms]
+        if x["k"] == "if" and "else" not in x:
+            ex.append(False)    # the implicit empty `else` falls through
+        if any(ex) and not all(ex):
+            return self._guard(x["cond"] if x["k"] == "if" else x["scrut"], fn)
+        return None
 
     def _array_literal_elems(self, e, fn):
         """classes of the elements when the `for` iterates over an array literal of plain local variables."""
@@ -304,7 +357,9 @@ class Extractor:
         if e.get("k") == "if":
             return "else" in e and only_break(e["else"])
         if e.get("k") == "match":
-            return any(only_break(a["body"]) for a in e.get("arms", []))
+            # the `match it.next()` of a desugared `for` yields no branch of its own: a branch found in a for body
+            # belongs to the body
+            return e.get("src") != "for" and any(only_break(a["body"]) for a in e.get("arms", []))
         return False
 
     def _guard(self, cond, fn):
